@@ -1382,6 +1382,8 @@ def worker_fn(check, tier_, master, n_runs, budget_s=None):
                 if mini is None:
                     # the run's own call history does not reproduce it on fresh objects: the competition's
                     # behaviour depended on the competitions this process ran before it
+                    if sum(1 for x in viols.values() if x.get('run_sequence')) >= 2:
+                        continue        # (two such reports per worker are enough; each costs fresh interpreters)
                     allruns = list(range(wi, i + 1, nw))
                     ctx = context_replay(check, tier_, master, allruns, v.cls)
                     # (not even the worker's whole sequence reproduces it in a fresh interpreter: the subject
